@@ -390,7 +390,7 @@ type c13Manager interface {
 // ---------------------------------------------------------------------------------------------
 // group 1: specifiers x names
 
-var c13Specs = []string{"W", "W/", "W/Val1", "W/Val.*", "W/Val.*[02]", "^W/Val1$", "W/^Val1", "W/Val1$", "W/a|b", "X/.*"}
+var c13Specs = []string{"W", "W/", "W/Val1", "W/Val.*", "W/Val.*[02]", "^W/Val1$", "W/^Val1", "W/Val1$", "W/a|b", "W/(Val1)|(xb)", "X/.*"}
 var c13Wallets = []string{"W", "Wx", "xW", "X"}
 var c13Names = []string{"Val1", "Val12", "Val2", "xVal1", "a", "xb"}
 
